@@ -194,7 +194,19 @@ def _call_chunk(args):
             out.append(fn(case))
         except HarnessError:
             raise
-        except BaseException:  # a crash of the harness itself, not of the library
+        except BaseException as exc:
+            tb = traceback.extract_tb(exc.__traceback__)
+            last = tb[-1] if tb else None
+            lib = os.path.join(os.path.realpath(REPO), 'pynetdicom2') + os.sep
+            if last is not None and os.path.realpath(last.filename).startswith(lib) and isinstance(exc, Exception):
+                # the library itself raised where the unchanged tree does not: report as a violation of the
+                # property under check (signature names the raising function), not as a harness error
+                out.append({'viol': [('crash:%s:%s:%s' % (modname.split('.')[-1], type(exc).__name__, last.name),
+                                      'library raised %r in %s:%d (%s) during case %s' % (
+                                          exc, os.path.basename(last.filename), last.lineno, last.name, short(case)))],
+                            'case': case, 'key': None})
+                continue
+            # a crash of the harness itself
             raise HarnessError('harness crashed on case %s:\n%s' % (short(case), traceback.format_exc()))
     return out
 
